@@ -244,6 +244,9 @@ def run(ctx) -> None:
     # "the greatest tag": fetched first when fetching is on - the remote lookup that decides whether `fetch` runs (C10's rule)
     from checks.c10 import remote_lookup_rule
     remote_lookup_rule(ctx, "R1")
+    # ... and listed by the commands their names stand for (`git tag --list [--merged]`, `hg tags`, `git fetch`): C10's command table rule
+    from sa.report import run_prerequisite as _rp
+    _rp(ctx, "C10", ("R8",), "R1", only=lambda key: "['ls_tags" in key or "['fetch']" in key)
 
     # ---------------------------------------------------------------- R2
     gl = prog.function("cli.get_latest_vcs_version_tag")
